@@ -174,6 +174,10 @@ func (*KessokuSet) kessokuPattern() {}
 type KessokuProvide struct {
 	FuncExpr  ast.Expr
 	SourcePos token.Pos
+	// Synthesized is set when FuncExpr was built by the transformer (constructor reference of a
+	// binding, struct constructor, field accessor). Its package qualifiers are already the names
+	// the packages have in the output file, not names of the source file's imports.
+	Synthesized bool
 }
 
 func (*KessokuProvide) kessokuPattern() {}
